@@ -121,6 +121,16 @@ fn sign1_case(g: &mut Gen, ctx: &mut Ctx) -> CaseResult {
         ensure!(seen.len() == 1, "signer closure called {} times", seen.len());
         expect_eq("CoseSign1Builder create helper", &seen[0], &want)?;
         ctx.class("sign1:builder-helper");
+        // the built message, its protected header edited through the public fields afterwards
+        if built.payload.is_some() {
+            let mut edited = built.clone();
+            if edited.protected.header.rest.iter().all(|(l, _)| !matches!(l, coset::Label::Int(i) if (77_000..77_100).contains(i))) {
+                let p2 = edit_built_protected(g, &mut edited.protected)?;
+                let want2 = ref_sig_structure("Signature1", &p2, None, &aad, edited.payload.as_deref().unwrap_or(&[]));
+                expect_eq("CoseSign1 built through the builder, protected header edited afterwards: tbs_data", &edited.tbs_data(&aad), &want2)?;
+                ctx.class("sign1:built-then-edited");
+            }
+        }
     }
     // injectivity: perturb one component
     let which = g.below(3);
@@ -266,6 +276,17 @@ fn sign_case(g: &mut Gen, ctx: &mut Ctx) -> CaseResult {
             ensure!(built.signatures[i].signature == vec![i as u8], "builder stored signer {}'s output elsewhere", i);
         }
         ctx.class("sign:builder-helper");
+        // the built message, its body protected header edited through the public fields afterwards
+        if nsig >= 1 && built.protected.header.rest.iter().all(|(l, _)| !matches!(l, coset::Label::Int(i) if (77_000..77_100).contains(i))) {
+            let mut edited = built.clone();
+            let p2 = edit_built_protected(g, &mut edited.protected)?;
+            let sg = edited.signatures[0].clone();
+            let ps = signers[0].p.clone();
+            let got = if edited.payload.is_some() { edited.tbs_data(&aad, &sg) } else { edited.tbs_detached_data(&payload, &aad, &sg) };
+            let want2 = ref_sig_structure("Signature", &p2, Some(&ps), &aad, if edited.payload.is_some() { edited.payload.as_deref().unwrap_or(&[]) } else { &payload });
+            expect_eq("CoseSign built through the builder, body protected header edited afterwards: to-be-signed bytes", &got, &want2)?;
+            ctx.class("sign:built-then-edited");
+        }
     }
     Ok(())
 }
